@@ -40,6 +40,7 @@ func c18Trees() map[string]c18Tree {
 	t["tiny-failing"] = c18Tree{"tiny-failing", append(t["tiny"].src.Clone(), tm.File(strings.Repeat("N", 255), []byte("x"), 0o644, tm.Past), tm.File("zz-after", []byte("after"), 0o644, tm.Past)), t["tiny"].dst}
 	t["many-tiny-16"] = c18Tree{"many-tiny-16", many[:12].Clone(), nil}
 	t["huge-literal"] = c18Tree{"huge-literal", tm.Tree{tm.File("big", genData(famHash, 300*1024, 4), 0o644, tm.Past)}, nil}
+	t["literal-over-basis"] = c18Tree{"literal-over-basis", tm.Tree{tm.File("big", genData(famHash, 700*1024, 8), 0o644, tm.Past)}, tm.Tree{tm.File("big", genData(famHash, 1000, 9), 0o644, tm.Past-9)}}
 	basis := genData(famHash, 1<<20, 5)
 	edited := append([]byte{}, basis...)
 	copy(edited[500000:], genData(famHash, 3000, 6))
